@@ -101,7 +101,7 @@ fn states_case<T: Sc>(rng: &mut Rng, case: u64, out: &mut CaseOut) {
     out.seen("flavour", format!("{}{}", if spec.mrhs { "mrhs" } else { "single" }, if spec.par { "+parallel" } else { "" }));
     out.seen("weights", g.wclass.name());
     out.seen("basis", spec.model.spec().map(|s| s.basis.iter().map(|b| b.tag().split('(').next().unwrap().to_string()).collect::<Vec<_>>().join("+")).unwrap_or_default());
-    let nsteps = rng.int(1, 4);
+    let nsteps = rng.int(1, 6);
     for step in 0..=nsteps {
         let alpha: Vec<f64> = prob.params().iter().map(|v| v.w()).collect();
         if let (Some(c), Some(j)) = (prob.coeffs(), prob.jacobian()) {
@@ -114,7 +114,8 @@ fn states_case<T: Sc>(rng: &mut Rng, case: u64, out: &mut CaseOut) {
             return;
         }
         if step < nsteps {
-            let a = wide_alpha(rng, &g.alpha_true);
+            let fresh = wide_alpha(rng, &g.alpha_true);
+            let a = next_alpha(rng, &alpha, fresh);
             prob.set_params(&DVector::from_iterator(a.len(), a.iter().map(|v| T::of(*v))));
         }
     }
